@@ -130,8 +130,16 @@ def has_kind(spec, kinds):
     return False
 
 
-def pack(arrs):
-    return arrs[0] if len(arrs) == 1 else tuple(arrs)
+def pack(arrs, tuple1=False):
+    """one array as it is (or, with tuple1, as a one-element tuple, the other documented form of 'array or tuple of arrays')"""
+    return arrs[0] if len(arrs) == 1 and not tuple1 else tuple(arrs)
+
+
+def tuple1_flag(case):
+    """a third of the single-component cases hand data (and weights) over as one-element tuples: a pure function of the case"""
+    import hashlib, json
+
+    return hashlib.sha1(json.dumps(case, sort_keys=True, default=str).encode()).digest()[5] % 3 == 0
 
 
 def as_tuple(x):
@@ -185,8 +193,9 @@ def check_chain(case, ctx):
         if np.isnan(LinearNDInterpolator(pts_, np.zeros(pts_.shape[0]))(pts_)).any():
             ctx.skip("scipy_returns_nan_at_data_points_known_finding_D9")
     chain = build.make_estimator(spec)
-    d_arg = pack(data)
-    w_arg = None if weights is None else pack(weights)
+    t1 = tuple1_flag(case)
+    d_arg = pack(data, t1)
+    w_arg = None if weights is None else pack(weights, t1)
     try:
         quiet(chain.fit, (e, n), d_arg, w_arg)
     except Exception as exc:  # noqa: BLE001
@@ -195,7 +204,7 @@ def check_chain(case, ctx):
         raise
     # hand-threaded reference
     clones = [clone(step) for _, step in chain.steps]
-    args = ((e, n), d_arg, w_arg)
+    args = ((e, n), pack(data), None if weights is None else pack(weights))  # (the plain form, whatever form the chain itself was given)
     inter = [args]
     for c in clones:
         args = quiet(c.filter, *args)
@@ -368,8 +377,9 @@ def check_filter(case, ctx):
         if not scipy_accepts(e, n):
             ctx.skip("scipy_cannot_triangulate")
     est = build.make_estimator(case["spec"])
-    w_arg = None if weights is None else pack(weights)
-    out = quiet(est.filter, coords, pack(data), w_arg)
+    t1 = tuple1_flag(case)
+    w_arg = None if weights is None else pack(weights, t1)
+    out = quiet(est.filter, coords, pack(data, t1), w_arg)
     ctx.check(isinstance(out, tuple) and len(out) == 3, "filter must return (coordinates, residuals, weights)")
     oc, res, ow = out
     ctx.check(len(oc) == len(coords) and all(np.array_equal(a, b) for a, b in zip(oc, coords)), "filter changed the coordinates")
@@ -378,9 +388,9 @@ def check_filter(case, ctx):
     else:
         ctx.check(all(np.array_equal(a, b) for a, b in zip(as_tuple(ow), weights)), "filter changed the weights")
     ref = build.make_estimator(case["spec"])
-    quiet(ref.fit, coords, pack(data), w_arg)
+    quiet(ref.fit, coords, pack(data), None if weights is None else pack(weights))
     pred = as_tuple(ref.predict(coords))
-    if len(data) == 1:
+    if len(data) == 1 and not t1:
         ctx.check(not isinstance(res, (tuple, list)), "filter was given one data array and returned its residuals as a %s (the data's shape is %s)", type(res).__name__, data[0].shape)
     res = as_tuple(res)
     ctx.check(len(res) == len(data), "residuals have %d components for %d-component data", len(res), len(data))
@@ -389,7 +399,7 @@ def check_filter(case, ctx):
         ctx.check(r.shape == data[k].shape, "residual has shape %s, data has %s", r.shape, data[k].shape)
         exp = data[k] - np.asarray(pred[k]).reshape(shape)
         ctx.check(np.array_equal(r, exp, equal_nan=True), "residual is not data minus the prediction of the gridder fitted on the same input")
-    ctx.label(case["spec"]["kind"], "ndim%d" % len(shape), "weights" if weights is not None else "noweights")
+    ctx.label(case["spec"]["kind"], "ndim%d" % len(shape), "weights" if weights is not None else "noweights", "data_as_1tuple" if t1 and len(data) == 1 else "data_plain")
     ctx.nt(True)
 
 
